@@ -42,7 +42,8 @@ def generate(tape, tier="quick"):
     pgrid = tape.weighted([("G", 5), ("unset", 2), ("nogrid", 2)])
     prod = {"time": not tape.chance(1, 4), "grid": pgrid,
             "units": tape.weighted([("m", 5), ("unset", 2), ("", 1)]),
-            "mask": tape.weighted([("FLEX", 5), ("NONE", 2)]), "foo": tape.choice(["absent", "unset", "x"])}
+            "mask": tape.weighted([("FLEX", 5), ("NONE", 2)] + ([("explicit", 3)] if pgrid == "G" else [])),
+            "foo": tape.choice(["absent", "unset", "x"])}
     cons = []
     n = tape.weighted([(1, 5), (2, 3), (3, 1)])
     # at most one injected conflict per scenario (about a third of the runs)
@@ -66,6 +67,11 @@ def generate(tape, tier="quick"):
             adapter, grid = "val2grid", "same"
         if prod["units"] in ("m", "") and units == "unset" and tape.chance(1, 6):
             adapter = "sum"
+        # explicit boolean masks are given per physical cell: "same" marks the producer's cells in the consumer's own
+        # layout, "other" differs in one cell
+        simple = pgrid == "G" and grid in ("same", "relayout") and adapter in (None, "scale")
+        if prod["mask"] == "explicit" and simple and tape.chance(1, 2):
+            mask = "same"
         if bad:
             if conflict_kind == "grid":
                 grid = "other" if pgrid != "nogrid" else "same"
@@ -73,6 +79,9 @@ def generate(tape, tier="quick"):
                 units = "s"
             elif conflict_kind == "mask":
                 mask = "NONE"
+                if simple and tape.chance(1, 2):
+                    # a fixed-mask consumer needs a producer with exactly that mask
+                    mask = "other" if prod["mask"] == "explicit" else "same"
             else:
                 adapter = tape.choice(["grid2val", "val2grid", "sum"])
         c = {"time": not tape.chance(1, 3), "grid": grid, "units": units, "mask": mask,
@@ -105,7 +114,15 @@ def execute(sc):
     pmeta = {}
     if p["foo"] != "absent":
         pmeta["foo"] = None if p["foo"] == "unset" else "x"
-    pinfo = Info(time=dt(0) if p["time"] else None, grid=pg, units=pu, mask=Mask[p["mask"]], **pmeta)
+    def mloc(m, flip=False):
+        b = np.round(m.field([1.0, 10.0, 100.0][: m.dim + 1]) * 3.7) % 4 == 0
+        if flip:
+            b = b.copy()
+            b.reshape(-1)[0] = not b.reshape(-1)[0]
+        return b
+
+    pinfo = Info(time=dt(0) if p["time"] else None, grid=pg, units=pu,
+                 mask=mloc(MG) if p["mask"] == "explicit" else Mask[p["mask"]], **pmeta)
     out = Output(name="src")
     inputs, eff = [], []
     for ci, c in enumerate(sc["cons"]):
@@ -122,7 +139,8 @@ def execute(sc):
         if c["foo"] != "absent":
             cmeta["foo"] = None if c["foo"] == "unset" else "y"
         inp = Input(name=f"c{ci}", info=Info(time=dt(1 + ci) if c["time"] else None, grid=cg, units=cu,
-                                             mask=Mask[c["mask"]], **cmeta))
+                                             mask=mloc(cm, c["mask"] == "other") if c["mask"] in ("same", "other")
+                                             else Mask[c["mask"]], **cmeta))
         ad = c["adapter"]
         if ad == "scale":
             out >> Scale(2.0) >> inp
@@ -227,6 +245,10 @@ def execute(sc):
     for ci, c in enumerate(sc["cons"]):
         if c["mask"] == "NONE" and p["mask"] != "NONE":
             conflict.append(f"c{ci}: unmasked consumer on a {p['mask']} producer")
+        if c["mask"] in ("same", "other") and p["mask"] != "explicit":
+            conflict.append(f"c{ci}: fixed-mask consumer on a {p['mask']} producer")
+        if c["mask"] == "other" and p["mask"] == "explicit":
+            conflict.append(f"c{ci}: fixed-mask consumer whose mask differs from the producer's in one cell")
     # time / extra meta unset on the producer must be provided by the first consumer
     if not p["time"] and not all(c["time"] for c in sc["cons"]):
         undetermined.append("time unset on the producer and on a consumer")
@@ -252,6 +274,15 @@ def execute(sc):
                 v("meta-unset-field", "input", f"c{ci}: input info has an unset field after connect: {inf!r} time={inf.time}; scenario {short(sc)}")
                 continue
             # own set fields are kept
+            if c["mask"] == "same" and not (isinstance(inf.mask, np.ndarray) and np.array_equal(inf.mask, mloc(cm))):
+                v("meta-fill", "mask", f"c{ci}: own fixed mask changed by the exchange")
+            if p["mask"] == "explicit" and c["mask"] == "FLEX" and c["adapter"] in (None, "scale") and \
+                    isinstance(inf.mask, np.ndarray) and inf.mask.ndim:
+                # a mask array recorded in the input's metadata marks the producer's cells in the input's own layout
+                wm = mloc(cm if cm not in (None, "nogrid") else MG)
+                if inf.mask.shape != wm.shape or not np.array_equal(inf.mask, wm):
+                    v("meta-mask", "layout", f"c{ci}: mask recorded in the input's metadata does not mark the producer's "
+                      f"masked cells on the input's grid; scenario {short(sc)}")
             if c["time"] and tick(inf.time) != 1 + ci:
                 v("meta-fill", "time", f"c{ci}: own time overwritten")
             if cu is not None and DIM.get(str(cu)) is not None and not fm.data.tools.equivalent_units(inf.units, cu):
